@@ -41,6 +41,10 @@ def file_typestate(ctx, rule, qual):
 
         def transfer(node, v, lab):
             st = node.stmt
+            if node.kind == 'with' and any(isinstance(it.optional_vars, ast.Name) and it.optional_vars.id == f
+                                           and isinstance(it.context_expr, ast.Call) and call_name(it.context_expr) in ('open', 'codecs.open', 'io.open')
+                                           for it in st.items):
+                return ['START']      # a freshly opened file bound to the same name
             if node.kind == 'iter' and isinstance(st.iter, ast.Name) and st.iter.id == f:
                 return ['MID'] if lab == 'item' else (['EOF'] if lab == 'exhausted' else [v])
             if node.kind == 'stmt' and st is not None:
